@@ -94,6 +94,8 @@ class PyValidators:
         """store keys as tools/yaml2coq.py names them: roots and `definitions` members"""
         res = []
         for url, doc in self.sv[major]._store.items():
+            if 'zz-verif-tmp' in url:
+                continue
             short = url[len(ID_PREFIX):-len('.json')]
             res.append(short + '#')
             for name in doc.get('definitions', {}):
@@ -108,13 +110,14 @@ class PyValidators:
             if frag == '':
                 sv._validate(inst, short)        # barectf's own path
             else:
-                url = ID_PREFIX + short + '.json'
-                doc = sv._store[url]
-                sub = doc
-                for part in frag.split('/')[1:]:
-                    sub = sub[part]
-                resolver = cpc._RefResolver(base_uri=url, referrer=doc, store=sv._store)
-                jsonschema.Draft7Validator(sub, resolver=resolver).validate(sv._dict_from_ordered_dict(inst))
+                # a definition: barectf's own path too (its resolver, its type checker), through a
+                # one-line schema `{$ref: <file>#<pointer>}` put into the validator's store
+                tmp_id = ID_PREFIX + 'zz-verif-tmp.json'
+                sv._store[tmp_id] = {'$id': tmp_id, '$ref': ID_PREFIX + short + '.json#' + frag}
+                try:
+                    sv._validate(inst, 'zz-verif-tmp')
+                finally:
+                    del sv._store[tmp_id]
             return 0
         except jsonschema.ValidationError:
             return 1
